@@ -343,7 +343,7 @@ class Converter:
             body = sub.block(tree.body, False)
         finally:
             sh.depth -= 1
-        return "Include %d %s" % (fid, body)
+        return "Include true %d %s" % (fid, body)
 
     def read_file(self, path):
         include_path = self.devices.resolve_relative_path(path, self.filename)
@@ -554,6 +554,37 @@ def convert(filename, text, fs=None):
     if not c.unsupported:
         res.items = items          # [(terms, token)]: the top-level statements with the parser's spans
         res.term = "[" + ";\n  ".join(t for ts, _ in items for t in ts) + "]"
+    return res
+
+
+def convert_files(files, fs=None):
+    """several files given to the linker, in order: Model/AsmT.link of the first file and the others as
+    (file id, statements); one file: the same term as convert()"""
+    name, text = files[0]
+    res = convert(name, text, fs=fs)
+    if len(files) == 1 or res.term is None:
+        return res
+    sh = Shared()
+    sh.unsupported, sh.kinds, sh.parse_diags = res.unsupported, res.kinds, res.parse_diags
+    # file ids of the inclusions of the first file were numbered from 1: go on after the highest one used
+    used = [int(x) for x in __import__("re").findall(r"Include true (\d+) ", res.term)]
+    sh.next_fid = max(used + [0]) + 1
+    rest = []
+    for fname, ftext in files[1:]:
+        c = Converter(fname, fs=fs, shared=sh)
+        tree = parse_with(c, fname, ftext)
+        if tree is None:
+            res.term = None
+            return res
+        fid = sh.next_fid
+        sh.next_fid += 1
+        body = c.block(tree.body, False)
+        rest.append("(%d%%nat, %s)" % (fid, body))
+    if sh.unsupported:
+        res.term = None
+        return res
+    res.term = "(link %s\n [%s])" % (res.term, ";\n  ".join(rest))
+    res.items = None
     return res
 
 
